@@ -10,11 +10,15 @@
 EXTENDS PipelineLazy, MC_PipelineCall
 CONSTANTS MaxEv,     \* number of evaluate() calls per handle (2: Evaluate ; ReEvaluate)
           AllKw,     \* TRUE: every keyword subset (valid cuts, surplus, missing); FALSE: valid cuts only
-          MaxHandles \* handles built one after the other inside one construct_dag() block (1: no sharing)
+          MaxHandles,\* handles built one after the other inside one construct_dag() block (1: no sharing)
+          Modes      \* calling conventions explored: subset of {"call", "full"}
 
 ---------------------------------------------------------------------------
 (* Part 1: export.  One state per description. *)
-LUInit == \E dd \in {x \in Universe : Valid(x)} : LazyInit(dd)
+(* the universe can be split over several TLC processes (Shard of NShards) by a cheap hash of the description *)
+DescHash(dd) == Len(dd.funcs[1].params) + 3 * Len(dd.funcs[2].params) + Len(dd.funcs[2].bound)
+                + (IF NF(dd) > 2 THEN 7 * Len(dd.funcs[3].params) + 2 * Len(dd.funcs[3].bound) ELSE 0)
+LUInit == \E dd \in {x \in Universe : Valid(x) /\ DescHash(x) % NShards = Shard} : LazyInit(dd)
 LUNext == UNCHANGED allvars
 LUSpec == LUInit /\ [][LUNext]_allvars
 LEmit  == PrintT(<<"CASE", ToJson([desc |-> d,
@@ -29,7 +33,7 @@ InvDepEdgesStatic == \A o \in AllOutputs(d) : \A C \in Cuts(d, o) :
 (* Part 2: behaviours *)
 KwSets(o) == IF AllKw THEN SUBSET Names(d) ELSE Cuts(d, o)
 (* (the guards phase = ... in front of the quantifiers only keep TLC from enumerating the cuts in every state) *)
-LNext == \/ (phase = "idle" /\ \E o \in AllOutputs(d) : \E C \in KwSets(o) : \E m \in {"call", "full"}, g \in BOOLEAN :
+LNext == \/ (phase = "idle" /\ \E o \in AllOutputs(d) : \E C \in KwSets(o) : \E m \in Modes, g \in BOOLEAN :
                                   LBegin(o, KwOf(C), m, g))
          \/ Build \/ BuildRaiseUnused \/ BuildRaiseMissing \/ BuildRaiseOutputSupplied
          \/ EvalBegin
